@@ -49,3 +49,30 @@ Definition prompt_case := (bool * list bytes * nat)%type.                 (* tru
 Definition prompt_agree (c : prompt_case) : bool :=
   let '(ta, answers, obs) := c in
   match fst (fst (batch ta answers)) with Proceed => obs =? 0 | Refuse => obs =? 1 | Blocked => obs =? 2 end.
+
+(* ---- a client process over time: a retrying client contacts its servers again ---- *)
+(* a contact: server id, and whether its key matches the known-hosts file at that moment (oracle) *)
+Definition contact := (nat * bool)%type.
+(* trustAllHostsCh closed; untrustedHosts (recorded, never consulted by Wrap) *)
+Record cstate := { st_trust_all : bool; st_refused : list nat }.
+(* one round: the contacts of one batching window and what the user types during it; a new
+   bufio.Reader per prompt: what was typed but not consumed is gone *)
+Definition round (st : cstate) (answers : list bytes) (cs : list contact) : list decision * cstate :=
+  if forallb snd cs then (map (fun _ => Proceed) cs, st)
+  else let '(d, ta, _) := batch (st_trust_all st) answers in
+       (map (fun c => host_decision (snd c) d) cs,
+        {| st_trust_all := ta;
+           st_refused := match d with
+                         | Refuse => map fst (filter (fun c => negb (snd c)) cs) ++ st_refused st
+                         | _ => st_refused st
+                         end |}).
+Fixpoint run (st : cstate) (h : list (list bytes * list contact)) : list (list decision) :=
+  match h with
+  | [] => []
+  | (a, cs) :: r => let '(ds, st') := round st a cs in ds :: run st' r
+  end.
+Definition code (d : decision) : nat := match d with Proceed => 0 | Refuse => 1 | Blocked => 2 end.
+Definition hist_case := (bool * list (list bytes * list contact) * list (list nat))%type.   (* trust_all, rounds, observed codes *)
+Definition hist_agree (c : hist_case) : bool :=
+  let '(ta, h, obs) := c in
+  list_eqb (list_eqb Nat.eqb) (map (map code) (run {| st_trust_all := ta; st_refused := [] |} h)) obs.
